@@ -54,6 +54,8 @@ type execCtx struct {
 	ctes   map[string]*relation
 	// describe mode: no rows are read, parameters are typed instead
 	ptypes map[int]uint32
+	// others: the open transactions of the other sessions (Server.SetDetectWaits)
+	others []*txn
 }
 
 // ---------------------------------------------------------------- relations
@@ -618,6 +620,11 @@ func (x *execCtx) insertRow(t *table, r *row) error {
 		return err
 	}
 	k := t.Name.String()
+	for _, o := range x.others {
+		if err := checkUnique(t, r, o.inserted[k]); err != nil {
+			return &pgErr{code: "55P03", msg: "the statement would WAIT for another session's open transaction, which holds an uncommitted row with the same unique key (" + err.Error() + ")"}
+		}
+	}
 	x.tx.inserted[k] = append(x.tx.inserted[k], r)
 	return nil
 }
